@@ -92,7 +92,7 @@ func (o *Obl) base() string {
 }
 
 func ledgerKind(k string) bool {
-	return k == "post" || k == "impl" || k == "lemma" || k == "alloc" || k == "table" || k == "atcall" || strings.HasPrefix(k, "inv")
+	return k == "post" || k == "panic" || k == "impl" || k == "lemma" || k == "alloc" || k == "table" || k == "atcall" || strings.HasPrefix(k, "inv")
 }
 
 func readLedger(path string) ([]string, error) {
